@@ -2,7 +2,7 @@
 """Confirm a seeded change and run our checks against it, in an ISOLATED copy of /repo and /verif
 (so that neither the real /repo nor concurrently running checks are disturbed).
 
-usage: tools/seedtest.py <PID> <patch.diff> <demo.py> [--tier quick|thorough] [--props C06,C07] [--store <id>]
+usage: tools/seedtest.py <PID> <patch.diff> <demo.py> [--tier quick|thorough] [--props C06,C07] [--store <id>] [--harmless]
  1. copy /repo -> /scratch/seedrun_<n>/repo and /verif (with .lake) -> /scratch/seedrun_<n>/verif
  2. demo on the unchanged copy must exit 0
  3. git apply patch in the copy; demo must exit != 0
@@ -25,6 +25,7 @@ def sh(cmd, **k):
 def main():
     pid, patch, demo = sys.argv[1:4]
     tier, props, store, meta_in = 'quick', [pid], None, None
+    harmless = '--harmless' in sys.argv
     for i, a in enumerate(sys.argv):
         if a == '--tier':
             tier = sys.argv[i + 1]
@@ -42,14 +43,23 @@ def main():
         sh(f'git -C /repo worktree list >/dev/null; cp -r /repo {repo}; rm -rf {repo}/.git/worktrees')
         sh(f'rsync -a --exclude replays --exclude evidence {V}/ {verif}/')
         env = dict(os.environ, PYTHONPATH=repo, COPULAS_REPO=repo)
-        r0 = sh(f'cd {repo} && /venv/bin/python {demo}', env=env, timeout=900)
+        if harmless:
+            # behaviour-preserving rewrite: the demo records reference outputs on the unchanged copy and must pass,
+            # with the outputs unchanged, on both trees
+            ref = f'{root}/ref.json'
+            rr = sh(f'cd {repo} && /venv/bin/python {demo} --record {ref}', env=env, timeout=900)
+            out['demo_record_exit'] = rr.returncode
+            demo_cmd = f'{demo} --ref {ref}'
+        else:
+            demo_cmd = demo
+        r0 = sh(f'cd {repo} && /venv/bin/python {demo_cmd}', env=env, timeout=900)
         out['demo_unchanged_exit'] = r0.returncode
         ap = sh(f'cd {repo} && git apply {patch}')
         if ap.returncode != 0:
             out['apply_error'] = ap.stderr[-300:]
             print(json.dumps(out, indent=1))
             return
-        r1 = sh(f'cd {repo} && /venv/bin/python {demo}', env=env, timeout=900)
+        r1 = sh(f'cd {repo} && /venv/bin/python {demo_cmd}', env=env, timeout=900)
         out['demo_changed_exit'] = r1.returncode
         out['demo_changed_tail'] = (r1.stdout + r1.stderr)[-300:]
         out['checks'] = {}
@@ -103,6 +113,12 @@ def main():
             'repo_head': sh('git -C /repo rev-parse --short HEAD').stdout.strip()}
         meta['our_checks'] = out.get('checks')
         meta['detected'] = any(c['exit'] == 1 for c in out.get('checks', {}).values())
+        if harmless:
+            # a behaviour-preserving rewrite: the property still holds, so a failing input would be a FALSE ALARM;
+            # a broken proof obligation / correspondence reported as `no-failing-input-found` is the expected worst case
+            meta['harmless'] = True
+            meta['false_alarm'] = any(c['with_failing_input'] > 0 for c in out.get('checks', {}).values())
+            meta['silent'] = not meta['detected']
         with open(os.path.join(d, 'meta.json'), 'w') as f:
             json.dump(meta, f, indent=1)
     print(json.dumps(out, indent=1))
